@@ -433,58 +433,37 @@ on pens numbered by `Nat` (aliased operands allowed), `runOps` runs the model of
 dictionary specification, in which a stored value is `store width signed v` (= `v` when representable,
 `representable_iff_store_exact`) and a description is what `descParse` extracts. -/
 
-/-- The full statement: every history, from any well-formed state, refines the dictionary history. -/
-def history_full : Prop :=
-  ∀ (sc : Scanf) (ops : List PenOp) (st : Nat → Pen), (∀ i, (st i).WF) →
-    (fun i => (runOps sc st ops i).abs) = specOps sc (fun i => (st i).abs) ops
-
-/-- It is false of pen.c: `tickit_pen_copy_attr(p, p, FG)` on a pen whose foreground has an RGB8 secondary loses
-    the secondary (the test for the source's RGB8 is made after the destination's index was written). -/
-theorem history_counterexample : ¬ history_full := by
-  intro h
-  have := h glibcScanf [.setColour 0 .fg 5, .setRgb8 0 .fg ⟨16, 32, 48⟩, .copyAttr 0 0 .fg] (fun _ => Pen.new)
-    (fun _ => wf_new)
-  have := congrFun (congrFun this 0) .fg
-  revert this
-  decide
-
-/-- The same on a single call: the statement "copy_attr gives the destination what the source reads as",
-    for source = destination. -/
-def copy_attr_self_full : Prop :=
-  ∀ (p : Pen) (a : PenAttr), p.WF → (p.copyAttrSelf a).abs = PenDict.copyAttr p.abs p.abs a
-
-theorem copy_attr_self_counterexample : ¬ copy_attr_self_full := by
-  intro h
-  exact abs_copyAttrSelf_ne ((Pen.new.setColourAttr .fg 5).setColourAttrRgb8 .fg ⟨16, 32, 48⟩) .fg (by decide)
-    (h _ _ (wf_setColourAttrRgb8 _ _ _ (wf_setColourAttr _ _ _ wf_new)))
-
-/-- The trigger is exactly "the attribute carries an RGB8": without one the aliased call is correct, with one
-    it is not. -/
-theorem copy_attr_self_partial (p : Pen) (a : PenAttr) (hp : p.WF) :
-    (p.copyAttrSelf a).abs = PenDict.copyAttr p.abs p.abs a ↔ p.hasColourAttrRgb8 a = false := by
-  constructor
-  · intro h
-    cases hh : p.hasColourAttrRgb8 a
-    · rfl
-    · exact absurd h (abs_copyAttrSelf_ne p a hh)
-  · exact abs_copyAttrSelf p a hp
-
-/-- Every history that never makes that call refines the dictionary history (aliased `copy` included):
-    after any such sequence of operations every pen denotes exactly the dictionary the specification computes,
-    so every getter, `has_attr` and `equiv` answer as the dictionary says. -/
-theorem history_partial (sc : Scanf) (ops : List PenOp) (st : Nat → Pen) (h : ∀ i, (st i).WF)
-    (hno : NoSelfCopyAttrWithRgb8 sc st ops) :
+/-- Every history, from any well-formed state (in particular from new pens), refines the dictionary history —
+    aliased `copy` and aliased `copy_attr` included: after any sequence of operations every pen denotes exactly the
+    dictionary the specification computes, so every getter, `has_attr` and `equiv` answer as the dictionary says. -/
+theorem history_full (sc : Scanf) (ops : List PenOp) (st : Nat → Pen) (h : ∀ i, (st i).WF) :
     (fun i => (runOps sc st ops i).abs) = specOps sc (fun i => (st i).abs) ops ∧ ∀ i, (runOps sc st ops i).WF :=
-  ⟨runOps_refines sc ops st h hno, runOps_wf sc ops st h⟩
+  ⟨runOps_refines sc ops st h, runOps_wf sc ops st h⟩
 
 /-- … in particular from new pens. -/
-theorem history_from_new (sc : Scanf) (ops : List PenOp) (hno : NoSelfCopyAttrWithRgb8 sc (fun _ => Pen.new) ops) :
+theorem history_from_new (sc : Scanf) (ops : List PenOp) :
     (fun i => (runOps sc (fun _ => Pen.new) ops i).abs) = specOps sc (fun _ => PenDict.empty) ops := by
-  have := (history_partial sc ops (fun _ => Pen.new) (fun _ => wf_new) hno).1
+  have := (history_full sc ops (fun _ => Pen.new) (fun _ => wf_new)).1
   rw [this]; simp [abs_new]
 
-example : NoSelfCopyAttrWithRgb8 glibcScanf (fun _ => Pen.new)
-    [.setColour 0 .fg 5, .setRgb8 0 .fg ⟨1, 2, 3⟩, .copy 1 0 true, .copyAttr 1 1 .bold, .clone 2 1, .copy 2 2 false] := by
-  decide
+/-- `copy_attr` gives the destination what the source reads as, also for source = destination (since /repo
+    8cce03b; before that fix the call lost the RGB8 secondary of a colour attribute). -/
+theorem copy_attr_self_full (p : Pen) (a : PenAttr) (hp : p.WF) :
+    (p.copyAttrSelf a).abs = PenDict.copyAttr p.abs p.abs a ∧
+    (p.copyAttrSelf a).hasColourAttrRgb8 a = p.hasColourAttrRgb8 a := by
+  have habs := abs_copyAttrSelf p a hp
+  refine ⟨habs, ?_⟩
+  have hr : (p.copyAttrSelf a).typedRead a = p.typedRead a := by
+    rw [← abs_read, ← abs_read, habs]
+    simp [PenDict.read, PenDict.copyAttr, PenDict.set]
+  cases a <;> first
+    | rfl
+    | (simp only [Pen.typedRead, PenAttr.type] at hr
+       cases h1 : (p.copyAttrSelf _).hasColourAttrRgb8 _ <;> cases h2 : p.hasColourAttrRgb8 _ <;> simp_all)
+
+/-- The former failing history (regression probe corpus/C19/copyattr_self_drops_rgb8.ops) now keeps the RGB8. -/
+example :
+    (runOps glibcScanf (fun _ => Pen.new) [.setColour 0 .fg 5, .setRgb8 0 .fg ⟨16, 32, 48⟩, .copyAttr 0 0 .fg] 0).typedRead .fg
+      = .c 5 (some ⟨16, 32, 48⟩) := by decide
 
 end Tickit.Props.C19
